@@ -112,7 +112,7 @@ ASSUMPTIONS = [
     'views (shells add variables of their own)',
     'fork failure is injected by a Process object whose start() raises EAGAIN']
 SHARDS   = {'quick': 16, 'thorough': 16}
-TIMEOUT  = {'quick': 400, 'thorough': 3000}
+TIMEOUT  = {'quick': 600, 'thorough': 5400}
 REQUIRED = {'dispatch_requests'        : 1500,
             'next_request_child_views' : 150,
             'restorations_checked'     : 1500,
